@@ -95,6 +95,18 @@ func (v *Verifier) lemmaObligations(l *Lemma) ([]*Obligation, error) {
 		step := mk(".step", []*Term{Gt(n, IntLit(0)), ih}, stmt)
 		return []*Obligation{base, step}, nil
 	}
+	if by[0] == "bvinduction" && len(by) >= 2 {
+		nv := env.vars[by[1]]
+		if nv == nil || nv.K != CBV {
+			return nil, fmt.Errorf("%s: bvinduction variable %s must be an unsigned bit-vector parameter", l.Where, by[1])
+		}
+		n := nv.T
+		w := n.S.W
+		ih := Subst(stmt, map[*Term]*Term{n: BVOp("bvsub", n, BVLit(1, w))})
+		base := mk(".base", []*Term{Eq(n, BVLit(0, w))}, stmt)
+		step := mk(".step", []*Term{Not(Eq(n, BVLit(0, w))), ih}, stmt)
+		return []*Obligation{base, step}, nil
+	}
 	return nil, fmt.Errorf("%s: unknown proof method %q", l.Where, l.By)
 }
 
